@@ -34,11 +34,12 @@ Inductive op :=
 | ExtendSelf                      (* x.f.extend(x.f) *)
 | Add (x : elt)
 | Update (vss : list (list elt))  (* x.f.update(it1, it2, ...) *)
-| AssignView (v : view).          (* x.f = <a LAZY iterable over x.f itself>: Python evaluates it against the OLD contents *)
+| AssignView (v : view)           (* x.f = <a LAZY iterable over x.f itself>: Python evaluates it against the OLD contents *)
+| IAugAlias (vs : list elt).      (* c = x.f; c += vs  /  c |= set(vs): the in-place operator through another reference to the container *)
 
 Definition applicable (k : kind) (o : op) : bool :=
   match k, o with
-  | _, Assign _ | _, AssignSelf | _, IAug _ => true
+  | _, Assign _ | _, AssignSelf | _, IAug _ | _, IAugAlias _ => true
   | KList, AssignView _ => true
   | KSet, AssignView VRev => false   (* a set is not reversible *)
   | KSet, AssignView _ => true
@@ -96,6 +97,8 @@ Definition py_step (k : kind) (o : op) (l : list elt) : list elt * bool :=
   | KList, ExtendSelf => (l ++ l, false)                         (* list.extend(self) doubles the list *)
   | KSet, Add x => (set_add x l, false)
   | KSet, Update vss => (fold_left set_union vss l, false)
+  | KList, IAugAlias vs => (l ++ vs, false)
+  | KSet, IAugAlias vs => (set_union l vs, false)
   | KList, AssignView v => (view_apply v l, false)
   | KSet, AssignView v => (set_union [] (view_apply v l), false)    (* the set of what the view yields *)
   | _, _ => (l, false)
